@@ -10,7 +10,7 @@ LIMIT_S = 10          # wall-clock limit for the constructor and for each elabor
 N = {"quick": 720, "thorough": 9000}
 CLS = {"mux": 1, "csrdec": 2, "csrbridge": 3, "register": 4, "action": 5, "monitor": 6, "csrevent": 7,
        "wbcsr": 8, "wbdec": 9, "arbiter": 10, "sram": 11, "gpio": 12}
-RULE = ("idx 0 = K2 probe (500 one-byte readable registers), idx 1 = submodule-name-collision probe; otherwise the class "
+RULE = ("idx 0 = K2 probe (500 one-byte readable registers), idx 1, 2 = submodule-name-collision probes (csr.Register field paths, csr.Bridge register names incl. \"mux\"); otherwise the class "
         "is idx mod 12 over csr.Multiplexer (mock registers, natural / packed / unaligned / padded layouts, span <= 2^12, "
         "shadow_overlaps in {None,0,1,2,3,4,5,8}; thorough adds every placement of two registers in [0,8) x {None,0,1,2}), "
         "csr.Decoder, csr.Bridge over csr.Builder (Cluster / Index scopes, real Registers), csr.Register (field trees, every "
@@ -78,7 +78,20 @@ def gen_mux(rnd, tier, exh=None):
                 "ov": ov, "bad": None}
     dw = rnd.choice([1, 4, 8, 8, 13, 16, 32])
     aw = rnd.choice([1, 2, 3, 4, 5, 6, 6, 7, 8, 10, 12])
-    style = rnd.choice(["natural", "packed", "unaligned", "unaligned", "padded", "big"])
+    style = rnd.choice(["natural", "packed", "unaligned", "unaligned", "padded", "big", "alias", "alias"])
+    if style == "alias":
+        # back-to-back registers from an odd address: some alias whatever the shadow size is (F2)
+        aw = rnd.choice([3, 4, 5, 6])
+        cur = rnd.choice([1, 2, 3, 5])
+        regs = []
+        for i in range(rnd.choice([2, 2, 3, 4, 5])):
+            size = rnd.choice([1, 1, 2, 2, 3])
+            if cur + size > (1 << aw):
+                break
+            acc = rnd.choice(["r", "w", "rw", "rw", "rw"])
+            regs.append([cur, cur + size, size * dw - rnd.choice([0, 0, 1]), int("r" in acc), int("w" in acc)])
+            cur += size + rnd.choice([0, 0, 0, 1])
+        return {"aw": aw, "dw": dw, "regs": regs, "ov": rnd.choice([0, 0, 0, 1, 1, 2, None]), "bad": None}
     regs = []
     cur = 0
     top = 1 << aw
@@ -132,6 +145,7 @@ def gen_csrdec(rnd, tier):
 
 
 NAMES = ["a", "b", "c", "reg", "x1", "ctrl", "stat"]
+TRICKY = ["a", "a__0", "0", "mux", "a__b", "b", "a__a", "a__0__b"]   # joins with "__" can coincide (E1)
 ACTIONS = ["R", "W", "RW", "RW1C", "RW1S", "ResRAW0", "ResRAWL", "ResR0WA", "ResR0W0"]
 STORAGE = ("RW", "RW1C", "RW1S")
 
@@ -177,16 +191,16 @@ def gen_action(rnd, allowed=None):
     return cfg
 
 
-def gen_fields(rnd, depth, allowed):
+def gen_fields(rnd, depth, allowed, pool=NAMES):
     k = rnd.random()
     if depth >= 2 or k < 0.45:
         return ["f", gen_action(rnd, allowed)]
     if k < 0.75:
         n = rnd.choice([0, 1, 2, 2, 3])
-        names = rnd.sample(NAMES, n)
-        return ["d", [[nm, gen_fields(rnd, depth + 1, allowed)] for nm in names]]
+        names = rnd.sample(pool, n)
+        return ["d", [[nm, gen_fields(rnd, depth + 1, allowed, pool)] for nm in names]]
     if k < 0.97:
-        return ["l", [gen_fields(rnd, depth + 1, allowed) for _ in range(rnd.choice([0, 1, 2, 3]))]]
+        return ["l", [gen_fields(rnd, depth + 1, allowed, pool) for _ in range(rnd.choice([0, 1, 2, 3]))]]
     return ["bad", rnd.choice(["x", 3, None])]
 
 
@@ -197,23 +211,27 @@ def gen_register(rnd, wide=False):
         allowed = ACTIONS                        # incompatible fields: the constructor must refuse
     if rnd.random() < 0.05:
         acc = rnd.choice(["x", None, 3])
-    return {"fields": gen_fields(rnd, 0, allowed), "access": acc}
+    pool = TRICKY if rnd.random() < 0.15 else NAMES
+    return {"fields": gen_fields(rnd, 0, allowed, pool), "access": acc}
 
 
-def gen_builder_ops(rnd, depth=0):
+def gen_builder_ops(rnd, depth=0, tricky=None):
     ops = []
+    if tricky is None:
+        tricky = rnd.random() < 0.15
     for i in range(rnd.choice([0, 1, 1, 2, 3]) if depth else rnd.choice([1, 2, 3, 4])):
         k = rnd.random()
         if k < 0.62 or depth >= 2:
-            name = rnd.choice(NAMES) + rnd.choice(["", "", str(i)])
+            name = rnd.choice(TRICKY) if tricky else rnd.choice(NAMES) + rnd.choice(["", "", str(i)])
             if rnd.random() < 0.03:
                 name = rnd.choice(["", 3, None])
             ops.append(["add", name, gen_register(rnd), rnd.choice([None, None, None, 0, 4, 8, 3, 16, 32])])
         elif k < 0.8:
-            ops.append(["cluster", rnd.choice(["k", "m", "blk"]) if rnd.random() < 0.97 else "", gen_builder_ops(rnd, depth + 1)])
+            ops.append(["cluster", rnd.choice(["a", "a__0", "b"] if tricky else ["k", "m", "blk"]) if rnd.random() < 0.97 else "",
+                        gen_builder_ops(rnd, depth + 1, tricky)])
         else:
             ops.append(["index", rnd.choice([0, 0, 1, 2, 7]) if rnd.random() < 0.97 else rnd.choice([-1, "x"]),
-                        gen_builder_ops(rnd, depth + 1)])
+                        gen_builder_ops(rnd, depth + 1, tricky)])
     return ops
 
 
@@ -268,7 +286,7 @@ def gen_wbdec(rnd, tier, idx):
                         "g": maybe_bad(rnd, rnd.choice([None, 8, 16]), 0.3),
                         "feat": rnd.choice([[], ["err"], ["foo"], "err", 3, ["err", "stall", "lock"]]),
                         "align": maybe_bad(rnd, 0, 0.2)}}
-    kind = "k1probe" if k < 0.35 else ("exh" if k < 0.5 else "main")   # exh = addr_width 0..2
+    kind = "k1probe" if k < 0.35 else ("exh" if k < 0.6 else "main")   # exh = addr_width 0..2
     cfg = W.gen_cfg(rnd, tier, kind)
     W.fill_results(cfg)
     return cfg
@@ -336,8 +354,8 @@ def gen_case(seed, tier, idx):
     if idx == 0:
         return {"engine": "elab", "kind": "mux", "sub": "k2probe", "pred": 0,
                 "cfg": {"aw": 12, "dw": 8, "regs": [[i, i + 1, 8, 1, 1] for i in range(500)], "ov": None, "bad": None}}
-    if idx == 1:
-        return gen_collision(rnd)
+    if idx in (1, 2):
+        return gen_collision(rnd, idx)
     nk = len(KINDS)
     kind = KINDS[idx % nk]
     sub = "rand"
@@ -374,11 +392,11 @@ def gen_case(seed, tier, idx):
     return {"engine": "elab", "kind": kind, "sub": sub, "pred": int(well_typed(kind, cfg)), "cfg": cfg}
 
 
-def gen_collision(rnd):
+def gen_collision(rnd, idx):
     """Distinct, mutually non-conflicting names whose '__'-joins coincide, or a register called "mux"
     (findings E1 = F11-F13, fixed in /repo by 6ea0aed / a4c349c: the later submodule is anonymous)."""
     f = ["f", {"kind": "RW", "shape": {"t": "u", "w": 2}, "init": None}]
-    v = rnd.randrange(5)
+    v = rnd.randrange(2) if idx == 1 else 2 + rnd.randrange(3)
     if v == 0:
         cfg = {"fields": ["d", [["a", ["d", [["b", f]]]], ["a__b", f]]], "access": "rw"}
     elif v == 1:
@@ -1041,7 +1059,8 @@ def oracle(case, o):
         nm, msg = o["refused"]
         pinned = nm == "AttributeError" and kind == "mux" and PIN_MSG in msg
         if nm not in ("ValueError", "TypeError", "Timeout") and not pinned:
-            out.append(("C19", "constructor", f"{kind} refused its arguments with {nm}: {msg}"))
+            key = "storage-init-outside-range-syntaxerror" if nm == "SyntaxError" and msg.startswith("Initial value") else None
+            out.append(("C19", "constructor", f"{kind} refused its arguments with {nm}: {msg}", key))
         return out
     for st, code in o["log"]:
         pass                          # tolerated ValueError / TypeError of add() steps; anything else propagated
